@@ -453,6 +453,32 @@ def rule_cached_settings(ck, facts, f, rb, dom, self_ty):
                 ck.bad(R, key, "before any setter is called the runtime's cached %s is %s (%s) but a fresh engine state starts with %s (%s): globals evaluated by `main` on a fresh / prewarmed engine see one value, the swap then re-applies the other, and the VM's host default is the cache's — `let sr = samplerate` differs between back ends and changes at a swap" % (cache.split("::")[-1], cv[0][0], cv[0][1].short, ev[0][0], ev[0][1].short), ev[0][1].where(ev[0][2]))
 
 
+
+def rule_wasm_install_whole(ck, facts):
+    """what the swap installs into the new engine is the whole buffer it was given"""
+    from ..facts import place_fields
+
+    R = "C06.wasm"
+    lang = facts.crate(roles.LANG)
+    n = 0
+    for f in lang.fns:
+        if "::runtime::wasm" not in f.path or f.kind not in ("fn", "assoc") or "::test" in f.path:
+            continue
+        if not any(f.local_ty(i).replace(" ", "") in ("&[u64]", "&[runtime::RawVal]") for i in range(1, f.d["argc"] + 1)):
+            continue
+        touches = any(st[KIND] == "a" and any((x or "").endswith("global_state") or (x or "").endswith("StateStorage::data") or (x or "").endswith("::data") for pl in ([st[4]] + ([st[5][1]] if st[5][0] in ("ref",) else [])) for x in place_fields(pl)) for _, st in f.all_stmts())
+        if not touches:
+            continue
+        n += 1
+        partial = [t for _, t in f.calls() if (callee(t) or "").split("::")[-1].split("<")[0] in ("copy_from_slice", "clone_from_slice", "copy_within", "min", "truncate", "split_at_mut")]
+        key = "install-whole|%s" % f.short.split("::")[-1]
+        if partial:
+            ck.bad(R, key, "%s writes the state words it is given into the storage the engine already has (`%s`) instead of installing them as the storage: the engine prepared for a swap has only run `main`, its storage is still empty (it is sized at the first dsp call), so nothing of the carried-over state reaches it and every cell restarts from zero" % (f.short, (callee(partial[0]) or "").split("::")[-1]), f.where(partial[0]))
+        else:
+            ck.ok(R, key, {"fn": f.short.split("::")[-1]})
+    ck.floor(R, "state_installers", n, 1)
+
+
 def run(ck, facts, tier):
     from . import c08
 
@@ -461,6 +487,7 @@ def run(ck, facts, tier):
     rule_vm_carried(ck, facts)
     rule_vm_post_install(ck, facts)
     rule_wasm(ck, facts)
+    rule_wasm_install_whole(ck, facts)
     c08.rule_apply(ck, facts)
     # only the converse clause is this property's: equal layouts keep the buffer (the forward clause is C07/C08's)
     c08.rule_fast_path(ck, facts, forward=False)
